@@ -94,10 +94,11 @@ def make_stream(rng, npieces):
 def run_case(ctx, data, cuts, conts, rseed, use_ctor=False):
     """Feed data cut at `cuts` using container names `conts` (cycled), with a
     retrieval program seeded by rseed between feeds."""
-    case = lambda: {'kind': 'case', 'bytes': list(data), 'cuts': list(cuts),  # noqa: E731
+    case = lambda: {'kind': 'case', 'bytes': bytes(data), 'cuts': list(cuts),  # noqa: E731
                     'conts': list(conts), 'rseed': rseed, 'ctor': use_ctor}
     produced, ref = reference(data)
     rng = random.Random(rseed)
+    cuts = tuple(sorted({min(max(c, 0), len(data)) for c in cuts}))
     chunks = gen.split_at(list(data), cuts)
     got = []
     retrieved = 0
@@ -196,9 +197,10 @@ def run_case(ctx, data, cuts, conts, rseed, use_ctor=False):
 
 
 def run_queue_case(ctx, data, cuts, rseed):
-    case = lambda: {'kind': 'queue', 'bytes': list(data), 'cuts': list(cuts), 'rseed': rseed}  # noqa: E731
+    case = lambda: {'kind': 'queue', 'bytes': bytes(data), 'cuts': list(cuts), 'rseed': rseed}  # noqa: E731
     produced, ref = reference(data)
     rng = random.Random(rseed)
+    cuts = tuple(sorted({min(max(c, 0), len(data)) for c in cuts}))
     q = ParserQueue()
     got = []
     pos = 0
@@ -291,6 +293,29 @@ def run(ctx):
             n += 1
             ctx.nontrivial(('q', hash(bytes(data)), tuple(cuts)))
     ctx.extra('long_streams_random_chunkings', nl)
+    # sysex beyond 64 KiB delivered in several calls (a cut after the 65 536th byte, a last chunk holding
+    # only the F7), and more than 4 096 / 2**18 messages pending at once
+    if ctx.shard == 5 % ctx.nshards:
+        for ln in (65535, 65536, 65537, 70000, 200000 if ctx.tier == 'thorough' else 66000):
+            data = [0x90, 1, 2] + midi1.encode('sysex', {'data': tuple(i % 128 for i in range(ln))}) + [0xC0, 9]
+            for cuts in ((3, 65536), (65540,), (len(data) - 3,), (3, 40000, 65539, len(data) - 4), (len(data) - 3, len(data) - 2)):
+                for conts in (('bytes',), ('list', 'bytearray')):
+                    nt = run_case(ctx, data, cuts, conts, f'{ctx.seed}:big:{ln}:{cuts}')
+                    ctx.nontrivial(('big', ln, cuts, conts))
+                    n += 1
+            run_queue_case(ctx, data, (3, 65539, len(data) - 3), f'{ctx.seed}:bigq:{ln}')
+            n += 1
+    if ctx.shard == 6 % ctx.nshards:
+        for count in (4095, 4096, 4097, 5000) + ((2 ** 18 + 10,) if ctx.tier == 'thorough' else ()):
+            data = []
+            for i in range(count):
+                data += [0x90 | (i % 16), i % 128, (i // 128) % 128] if i % 3 else [0xF8]
+            for cuts in ((), (len(data) // 2,), (1, len(data) - 1)):
+                run_case(ctx, data, cuts, ('bytes',), f'{ctx.seed}:many:{count}:{cuts}')
+                ctx.nontrivial(('many', count, cuts))
+                n += 1
+            run_queue_case(ctx, data, (len(data) // 3,), f'{ctx.seed}:manyq:{count}')
+            n += 1
     # parse()/parse_all() convenience functions agree with the reference
     for j in range(200 if ctx.tier == 'quick' else 5000):
         data = make_stream(ctx.rng, ctx.rng.randrange(0, 4))
